@@ -1070,7 +1070,7 @@ def p_struct_users(ctx):
     root_fields = [A.scalar(k, wk)]
     if rng.random() < 0.5:
         root_fields.append(A.scalar(ctx.fid(), rng.choice([8, 16, 24])))
-    sized_root = rng.random() < 0.3
+    sized_root = ctx.index % 2 == 0    # alternates, so that every run has both
     if sized_root:
         root_fields.append(A.size_f("_payload_", 8))
     root_fields.append(A.payload())
@@ -1104,7 +1104,16 @@ def p_struct_users(ctx):
         # the parent struct itself as a (greedy) last field
         users.append([A.scalar(ctx.fid(), 8), A.typedef(ctx.fid(), a)])
     rng.shuffle(users)
-    for flds in users[:rng.randint(5, 8)]:
+    users = users[:rng.randint(5, 8)]
+    if sized_root:
+        # the parent struct - constant header, payload delimited by its own size field - as array element
+        # (the TLV idiom): its size class is that of header + payload, not of the header
+        aid = ctx.fid()
+        users.append([A.count_f(aid, 8), A.array(aid, type_id=a)])
+        aid = ctx.fid()
+        users.append([A.size_f(aid, 16), A.array(aid, type_id=a), A.scalar(ctx.fid(), 8)])
+        users.append([A.scalar(ctx.fid(), 8), A.typedef(ctx.fid(), a), A.scalar(ctx.fid(), 8)])
+    for flds in users:
         ctx.decls.append(A.packet(ctx.uid("P"), flds))
     # a struct-typed field inside a child whose parent's payload is sized: the field's length feeds the
     # enclosing size field
